@@ -232,9 +232,12 @@ fn finish_pubsub() -> ! {
     let m = PUBSUB_MAP.lock().unwrap().clone().unwrap();
     let subs: Vec<String> = SUBSCRIBED.lock().unwrap().iter().map(|s| format!("\"{}\"", s)).collect();
     let logs: Vec<String> = LOG.with(|l| l.borrow().iter().map(|s| format!("\"{}\"", hex(s))).collect());
-    println!("{{\"subscribed\":[{}],\"map\":{},\"log\":[{}]}}", subs.join(","), mapj(&m), logs.join(","));
+    let returned = LOOP_RETURNED.load(std::sync::atomic::Ordering::SeqCst);
+    let left = SCRIPT.lock().unwrap().len();
+    println!("{{\"subscribed\":[{}],\"map\":{},\"log\":[{}],\"returned\":{},\"unread\":{}}}", subs.join(","), mapj(&m), logs.join(","), returned, left);
     std::process::exit(0);
 }
+static LOOP_RETURNED: std::sync::atomic::AtomicBool = std::sync::atomic::AtomicBool::new(false);
 fn run_pubsub() {
     let stdin = io::stdin();
     for line in stdin.lock().lines() {
@@ -243,7 +246,10 @@ fn run_pubsub() {
     }
     let m: Arc<RwLock<HashMap<String, u128>>> = Arc::new(RwLock::new(HashMap::new()));
     *PUBSUB_MAP.lock().unwrap() = Some(Arc::clone(&m));
-    ingest_from_pubsub(m)
+    ingest_from_pubsub(m);
+    // the real loop never returns; a version that does has stopped listening with part of the script unread
+    LOOP_RETURNED.store(true, std::sync::atomic::Ordering::SeqCst);
+    finish_pubsub()
 }
 
 fn main() {
